@@ -337,6 +337,12 @@ def case(ctx, rng, idx, state):
                group_size=system.pointgroup.size)
     has_AA = "AA" in keys
     berry_full = "berry_curvature" if has_AA else "berry_curvature_internal_terms"
+    # systems without position matrix elements that declare it (as the tight-binding importers do): every quantity with external terms is
+    # then evaluated with internal terms only - the declaration has to survive the npz round trip
+    fito = bool(not has_AA and rng.random() < 0.5)
+    if fito:
+        system.force_internal_terms_only = True
+        ctx.count("force_internal_terms_only_systems")
 
     tmp = tempfile.mkdtemp(dir=os.path.join(env.WORK, "c18"))
     try:
@@ -359,8 +365,11 @@ def case(ctx, rng, idx, state):
         got = set(s_npz._XX_R.keys())
         if got != set(knpz):
             ctx.violation("to_npz/from_npz:matrix", f"matrices {sorted(knpz)} expected, {sorted(got)} loaded", wit)
+        ctx.ev()
+        if bool(getattr(s_npz, "force_internal_terms_only", False)) != fito:
+            ctx.violation("to_npz/from_npz:force_internal_terms_only", f"{fito} -> {getattr(s_npz, 'force_internal_terms_only', None)}", wit)
         compare_system(ctx, "to_npz/from_npz", system, s_npz, knpz, wit, text=False, centres_text=None, kpts=kpts,
-                       berry_q="berry_curvature" if "AA" in knpz else "berry_curvature_internal_terms",
+                       berry_q="berry_curvature" if ("AA" in knpz or fito) else "berry_curvature_internal_terms",
                        pointgroup=True)
         ctx.count("roundtrip_npz")
         if system.pointgroup.size > 1:
@@ -454,7 +463,7 @@ if __name__ == "__main__":
                      "from_hr_file is given real_lattice (the format has none); tb files without an AA section and "
                      "convention-I files are read with wannier_centers_cart given, as documented",
                      "Ndegen != 1 files are produced by the harness, not by the writers (which always write 1)"],
-        required_counters=("roundtrip_npz", "roundtrip_tb", "roundtrip_hr", "odd_num_wann_hr", "even_num_wann_hr",
+        required_counters=("force_internal_terms_only_systems", "roundtrip_npz", "roundtrip_tb", "roundtrip_hr", "odd_num_wann_hr", "even_num_wann_hr",
                            "pointgroup_nontrivial", "tb_with_AA", "tb_conventionI", "tb_without_AA",
                            "tb_centres_from_AA_section", "ndegen_rewrite"),
     )
